@@ -3,7 +3,8 @@ from ..core import Script, Rng
 from ..stage import LineStage, replay_line
 from .common import *
 
-ARTEFACTS = ["G1-consts", "G2-rs-portable", "G2-ref-compress"]
+ARTEFACTS = ["G1-consts", "G2-rs-portable", "G2-ref-compress", "G15-rs-sse41"]
+EXTRA_PROPS = [("B3.Simd.Sse41Props", "B3/Simd/Sse41Props.lean"), ("B3.Simd.Sse41PropsMany", "B3/Simd/Sse41PropsMany.lean")]
 RULE = ("kernel calls, compared with the model's kernels (generated from src/portable.rs, proved = Spec.compress): single-block "
         "kernels on the grid block_len 0..64 x flag byte classes with random cv/block and counters from {0,1,2^32-1,2^32,2^32+1,2^63,"
         "2^64-1,random}; hash_many with num_inputs 0..2*degree+3, blocks in {1,16}, counters 2^32-k (k<=17) and near 2^64 so every "
@@ -78,6 +79,60 @@ def many_ops(rng, prefix, plats, n_random):
     return ops
 
 
+class SimdModelStage:
+    """the functions GENERATED from src/rust_sse41.rs (Gen/RsSse41.lean, evaluated with the lane model of the intrinsics in
+    B3/Simd/Prim.lean) against the real Rust-intrinsics kernels (`pure` build, Platform::sse41) on the same inputs: this is what ties
+    the trusted intrinsics model to the hardware"""
+    name = "rs-sse41-generated-vs-cpu"
+
+    def __init__(self, seed, n):
+        self.seed, self.n = seed, n
+
+    def run(self, lean_exe):
+        from .. import core
+        from .io_gen import lcg_bytes
+        import subprocess
+        rng = Rng(self.seed)
+        ok, exe, log = core.build_rs(("pure",))
+        if not ok:
+            return dict(evaluations=0, distinct=set(), hist={}, samples=[], mismatches=[dict(kind="driver-crash", impl_name="rs+pure", ops=[], log_tail=log[-2000:])])
+        impl_lines, model_lines = ["P plat sse41"], []
+        for i in range(self.n):
+            k = rng.choice(["cip", "cxof"])
+            cv, blk = rhex(rng, 32), rhex(rng, 64)
+            bl, ctr, fl = rng.randrange(0, 65), counters(rng), rng.randrange(256)
+            impl_lines.append(f"K {k} sse41 {cv} {blk} {bl} {ctr} {fl}")
+            model_lines.append(f"{k} {cv} {blk} {bl} {ctr} {fl}")
+        for i in range(max(4, self.n // 8)):
+            n = rng.choice([1, 2, 3, 4, 5, 7, 8, 9])
+            blocks = rng.choice([1, 1, 16])
+            seed = rng.randrange(1 << 30)
+            key = rhex(rng, 32)
+            ctr = min(rng.choice([0, (1 << 32) - rng.randrange(0, 9), (1 << 31) - rng.randrange(0, 9), rng.randrange(1 << 62)]), M64 - n)
+            incr, fl, fs, fe = rng.randrange(2), rng.randrange(256), rng.randrange(256), rng.randrange(256)
+            impl_lines.append(f"K hmany sse41 {n} {blocks} {seed} {key} {ctr} {incr} {fl} {fs} {fe} 0 0")
+            ins = " ".join(lcg_bytes(blocks * 64, (seed + j) % (1 << 64)).hex() for j in range(n))
+            model_lines.append(f"hmany {blocks * 64} {n} {key} {ctr} {incr} {fl} {fs} {fe} {ins}")
+        rc, out, _ = core.run_driver(exe, impl_lines)
+        if out and out[0] == "unsupported":
+            return dict(evaluations=0, distinct=set(), hist={"skipped": "no SSE4.1"}, samples=[], mismatches=[])
+        out = out[1:]
+        try:
+            pr = subprocess.run(["lake", "env", "lean", "--run", "RunSimd.lean"], cwd=core.LEAN_DIR, input="\n".join(model_lines) + "\n",
+                                stdout=subprocess.PIPE, stderr=subprocess.PIPE, text=True, timeout=1800)
+            mo = pr.stdout.split("\n")
+        except subprocess.TimeoutExpired:
+            mo = []
+        mism = []
+        for i, (a, b) in enumerate(zip(impl_lines[1:], model_lines)):
+            x = out[i] if i < len(out) else "<missing>"
+            y = mo[i] if i < len(mo) else "<missing>"
+            if x != y and len(mism) < 5:
+                mism.append(dict(kind="impl-vs-model", impl_name="rs+pure", ops=[impl_lines[0], a], impl_differs=True, impl_output=x[:300], model_output=y[:300],
+                                 note="generated SSE4.1 code (lane model) differs from the real intrinsics kernel; model input line: " + b[:200]))
+        return dict(evaluations=len(model_lines), distinct=set(model_lines), hist={"cases": len(model_lines)}, samples=[impl_lines[1:3]], mismatches=mism)
+
+
 def normalize(op, out):
     # flavours lacking a kernel / CPUs lacking an instruction set print `unsupported`: not comparable
     return out
@@ -92,7 +147,8 @@ def stages(tier, seed, witness_search=False):
     c_ops = single_ops(rng, "CK", C_SYMS, k) + many_ops(rng, "CK", C_SYMS, k // 2)
     rs_scripts = [Script([o], tags=(" ".join(o.split(" ")[:3]),)) for o in rs_ops]
     c_scripts = [Script([o], tags=(" ".join(o.split(" ")[:3]),)) for o in c_ops]
-    st = [LineStage("rs-asm", rs_scripts), LineStage("rs-pure", rs_scripts, features=("pure",)), LineStage("c-kernels", c_scripts, impl="c")]
+    st = [LineStage("rs-asm", rs_scripts), LineStage("rs-pure", rs_scripts, features=("pure",)), LineStage("c-kernels", c_scripts, impl="c"),
+          SimdModelStage(seed + 5, 200 if tier == "quick" else 3000)]
     if tier == "thorough":
         st.append(LineStage("rs-prefer_intrinsics", rs_scripts, features=("prefer_intrinsics",)))
     return st
@@ -100,6 +156,8 @@ def stages(tier, seed, witness_search=False):
 
 def replay(d, lean_exe):
     st = d.get("stage", "")
+    if st == "rs-sse41-generated-vs-cpu":
+        return dict(still_fails=False, note="re-run the check with the same VERIF_SEED; the model input line is in `note`")
     if st == "c-kernels":
         return replay_line(d, lean_exe, impl="c")
     feats = () if st in ("rs-asm", "") else (st[3:],)
